@@ -4,10 +4,14 @@ use crate::engine::*;
 pub mod c01;
 pub mod c01_rules;
 pub mod c02;
+pub mod c03;
 pub mod c05;
 pub mod c06;
 mod c06_sql;
 mod c06_vals;
+pub mod c07;
+pub mod c08;
+pub mod c09;
 pub mod c11;
 mod c11_data;
 pub mod c12;
@@ -25,9 +29,11 @@ pub mod c18;
 pub mod c19;
 mod c19_model;
 pub mod c20;
+mod hist;
+pub mod sched;
 pub mod selftest;
 pub mod sqlcase;
 
 pub fn all() -> Vec<PropDef> {
-    vec![selftest::def(), c01::def(), c02::def(), c05::def(), c06::def(), c11::def(), c12::def(), c13::def(), c14::def(), c15::def(), c16::def(), c17::def(), c18::def(), c19::def(), c20::def()]
+    vec![selftest::def(), c01::def(), c02::def(), c03::def(), c05::def(), c06::def(), c07::def(), c08::def(), c09::def(), c11::def(), c12::def(), c13::def(), c14::def(), c15::def(), c16::def(), c17::def(), c18::def(), c19::def(), c20::def()]
 }
